@@ -247,7 +247,10 @@ func (c *RetryClient) Disconnect(ctx context.Context) error {
 		}
 	}), "retryclient: disconnecting")
 	c.mu.Lock()
-	close(c.chTask)
+	if c.chTask != nil {
+		// The task goroutine has been started by SetClient.
+		close(c.chTask)
+	}
 	c.stopped = true
 	c.mu.Unlock()
 	return err
